@@ -43,6 +43,10 @@ func c15Docs() []c15Doc {
 		// buffer is being consumed: the later buffers are still queued when the call fails
 		{"dense-small-stage2-error-early", []byte("[1,,1," + strings.Repeat("1,", 1900) + "1]")},
 		{"dense-small-ok", []byte("[" + strings.Repeat("1,", 1900) + "1]")},
+		// above the threshold, accepted by stage 1 (ends in a bracket) but one scope is never
+		// closed: rejected by the sanity check at the very end of stage 2, not by its fail exit
+		{"async-scope-left-open", []byte("[[" + d + "0]")},
+		{"small-scope-left-open", []byte(`{"a":[1,2]`)},
 	}
 }
 
@@ -295,7 +299,7 @@ func c15Body(w *W) {
 	c := newC15(w)
 	alpha := c15Alphabet(c)
 	depth := 3
-	w.Note(fmt.Sprintf("histories: every sequence of <= %d operations over %d ops {Parse x 11 documents (small/async/dense-below-threshold, ok / stage-1 error / stage-2 error early and late, long string) x copy/no-copy, ParseND x 4 documents x 2, three in-place edits of the current result, Deserialize of 3 blobs into the current object} on one reused ParsedJson (and one reused Serializer), the reused object kept either as the pointer the previous call returned or by value (keep := *result; Parse(b, &keep): the parser state then survives failed calls); each reuse call is compared with the same call on fresh objects", depth, len(alpha)))
+	w.Note(fmt.Sprintf("histories: every sequence of <= %d operations over %d ops {Parse x 13 documents (small/async/dense-below-threshold, ok / stage-1 error / stage-2 error early, late and at the final open-scope check, long string) x copy/no-copy, ParseND x 4 documents x 2, three in-place edits of the current result, Deserialize of 3 blobs into the current object} on one reused ParsedJson (and one reused Serializer), the reused object kept either as the pointer the previous call returned or by value (keep := *result; Parse(b, &keep): the parser state then survives failed calls); each reuse call is compared with the same call on fresh objects", depth, len(alpha)))
 	var hist []c15Op
 	var rec func(d int)
 	rec = func(d int) {
